@@ -146,3 +146,78 @@ B("c11-fresh-env-at-prediction", "C11", "R11.7", (CL, "        if self.kind in [
 B("c11-env-not-passed-down", "C11", "R11.7", (TT, "        self.set_types(data, env)", "        self.set_types(data, Environment([]))"), note="needs import; still compiles (name resolved at run time)")
 S("c11-benign-list-wrapper", "C11", (EV, "return VarLookupDict(self._namespaces)", "return VarLookupDict(self._namespaces)  # unchanged order"))
 S("c11-benign-type-self", "C11", (EV, "return self.__class__(self._namespaces + [outer_namespace])", "return type(self)(self._namespaces + [outer_namespace])"))
+
+# ------------------------------------------------------------------ C17
+B("c17-start-plus-one", "C17", "R17.1", (MX, "            self.slices[term.name] = slice(start, start + delta)\n            start += delta\n        self.evaluated = True\n\n    def evaluate_new_data(self, data):\n        \"\"\"Evaluates common",
+                                          "            self.slices[term.name] = slice(start, start + delta)\n            start += 1\n        self.evaluated = True\n\n    def evaluate_new_data(self, data):\n        \"\"\"Evaluates common"))
+B("c17-delta-from-training-at-prediction", "C17", "R17.1", (MX, "            delta = term_matrix.shape[1] if term_matrix.ndim == 2 else 1", "            delta = term.data.shape[1] if term.data.ndim == 2 else 1"))
+B("c17-slices-sorted-order", "C17", "R17.1", (MX, "        start = 0\n        for term in self.terms.values():\n            # NOTE", "        start = 0\n        for term in sorted(self.terms.values(), key=lambda t: t.name):\n            # NOTE"))
+B("c17-start-not-zero", "C17", "R17.1", (MX, "        start = 0\n        matrices_to_stack = []", "        start = 1\n        matrices_to_stack = []"))
+B("c17-continue-skips-update", "C17", "R17.1", (MX, "            new_instance.slices[term.name] = slice_new\n\n            start += delta", "            new_instance.slices[term.name] = slice_new\n            if delta == 0:\n                continue\n            start += delta"))
+B("c17-group-aliases-training-slices", "C17", "R17.1", (MX, "        new_instance.factors_with_new_levels = tuple(factors_with_new_levels)", "        new_instance.factors_with_new_levels = tuple(factors_with_new_levels)\n        new_instance.slices = self.slices"))
+B("c17-labels-reversed", "C17", "R17.2", (MX, "        colnames = [term.labels for term in self.terms.values()]", "        colnames = [term.labels for term in reversed(list(self.terms.values()))]"))
+B("c17-labels-sorted", "C17", "R17.2", (MX, "columns=list(flatten_list(colnames))", "columns=sorted(flatten_list(colnames))"))
+B("c17-array-returns-copy-transposed", "C17", "R17.3", (MX, "    def __array__(self):\n        return self.design_matrix\n\n    def __repr__(self):\n        return self.__str__()\n\n    def __str__(self):\n        entries = []\n        for name, term in self.terms.items():\n            content",
+                                                          "    def __array__(self):\n        return self.design_matrix.T\n\n    def __repr__(self):\n        return self.__str__()\n\n    def __str__(self):\n        entries = []\n        for name, term in self.terms.items():\n            content"))
+B("c17-getitem-guard-removed", "C17", "R17.3", (MX, "        if term not in self.slices:\n            raise ValueError(f\"'{term}' is not a valid term name\")\n        return self.design_matrix[:, self.slices[term]]\n\n    def __array__(self):\n        return self.design_matrix\n\n    def __repr__(self):\n        return self.__str__()\n\n    def __str__(self):\n        entries = []\n        for name, term in self.terms.items():\n            has_levels",
+                                                 "        return self.design_matrix[:, self.slices.get(term, slice(0, 0))]\n\n    def __array__(self):\n        return self.design_matrix\n\n    def __repr__(self):\n        return self.__str__()\n\n    def __str__(self):\n        entries = []\n        for name, term in self.terms.items():\n            has_levels"))
+B("c17-tuple-order", "C17", "R17.3", (MX, "return (self.response, self.common, self.group)[index]", "return (self.common, self.response, self.group)[index]"))
+B("c17-common-prediction-order", "C17", "R17.4", (MX, "            [t.eval_new_data(data) for t in self.terms.values()]", "            [t.eval_new_data(data) for t in reversed(list(self.terms.values()))]"))
+B("c17-assert-in-str", "C17", "R17.5", (MX, "            if term_slice_width != len(groups) * effect_n:  # Has extra groups\n", "            if term_slice_width != len(groups) * effect_n:  # Has extra groups\n                assert term_slice_width == (len(groups) + 1) * effect_n\n"))
+B("c17-levels-based-width", "C17", "R17.5", (MX, "            effect_n = term.expr.data.shape[1] if term.expr.data.ndim == 2 else 1", "            effect_n = len(term.expr.levels) if has_levels else 1"))
+B("c17-response-on-other-frame", "C17", "R17.6", (MX, "            self.response.evaluate(data, env)", "            self.response.evaluate(data.dropna(), env)"))
+S("c17-benign-delta-if-else", "C17", (MX, "            delta = term.data.shape[1] if term.data.ndim == 2 else 1\n", "            if term.data.ndim == 2:\n                delta = term.data.shape[1]\n            else:\n                delta = 1\n"))
+S("c17-benign-comment", "C17", (MX, "            # Always store the new slice.", "            # Always keep the new slice."))
+
+# ------------------------------------------------------------------ C09
+B("c09-validation-removed", "C09", "R9.1", (MX, "    if na_action not in [\"drop\", \"error\", \"pass\"]:\n        raise ValueError(\"'na_action' must be either 'drop', 'error' or 'pass'\")\n", ""))
+B("c09-literal-typo", "C09", "R9.1", (MX, '        elif na_action == "drop":', '        elif na_action == "dropna":'))
+B("c09-drop-no-rebind", "C09", "R9.1", (MX, "            data = data[~incomplete_rows]\n", "            data[~incomplete_rows]\n"))
+B("c09-drop-keeps-incomplete", "C09", "R9.1", (MX, "            data = data[~incomplete_rows]\n", "            data = data[incomplete_rows]\n"))
+B("c09-guard-gt1", "C09", "R9.1", (MX, "    if incomplete_rows_n > 0:", "    if incomplete_rows_n > 1:"))
+B("c09-error-does-not-raise", "C09", "R9.1", (MX, "            raise ValueError(f\"'data' contains {incomplete_rows_n} incomplete rows.\")", "            _log.info(\"'data' contains %s incomplete rows.\", incomplete_rows_n)"))
+B("c09-pass-drops", "C09", "R9.1", (MX, "                data.shape[0],\n            )\n        elif na_action == \"drop\":", "                data.shape[0],\n            )\n            data = data.dropna()\n        elif na_action == \"drop\":"))
+B("c09-isna-on-full-frame", "C09", "R9.2",
+  (MX, "    cols_to_select = description.var_names.intersection(set(data.columns))\n    data = data[list(cols_to_select)]\n\n    incomplete_rows = data.isna().any(axis=1)",
+   "    incomplete_rows = data.isna().any(axis=1)\n    cols_to_select = description.var_names.intersection(set(data.columns))\n    data = data[list(cols_to_select)]\n"))
+B("c09-any-axis0", "C09", "R9.2", (MX, "incomplete_rows = data.isna().any(axis=1)", "incomplete_rows = data.isna().all(axis=1)"))
+B("c09-design-from-unfiltered", "C09", "R9.2", (MX, "    design = DesignMatrices(description, data, env)", "    design = DesignMatrices(description, data.reset_index(drop=True), env)"))
+B("c09-response-on-other-frame", "C09", "R9.3", (MX, "            self.response.evaluate(data, env)", "            self.response.evaluate(self.data.copy(), env)"))
+B("c09-kwargs-not-traversed", "C09", "R9.4", (CU, "        kwargs = list(flatten_list([arg.accept(self) for arg in expr.kwargs.values()]))\n        return args + kwargs", "        return args"))
+B("c09-kwargs-computed-not-returned", "C09", "R9.4", (CU, "        return args + kwargs", "        return args"))
+B("c09-response-not-used", "C09", "R9.4", (TT, "        if self.response is not None:\n            var_names.update(self.response.var_names)\n", ""))
+B("c09-factor-not-used", "C09", "R9.4", (TT, "        return expr_names.union(factor_names)", "        return expr_names"))
+B("c09-terms-without-group", "C09", "R9.4", (TT, "        return self.common_terms + self.group_terms", "        return self.common_terms"))
+B("c09-first-component-only", "C09", "R9.4", (TT, "set().union(*[component.var_names for component in self.components])", "set().union(*[component.var_names for component in self.components[:1]])"))
+B("c09-bq-strip-differs", "C09", "R9.4", (CU, "        # delete backquotes in 'variable'\n        return expr.expression.lexeme[1:-1]", "        # delete backquotes in 'variable'\n        return expr.expression.lexeme[1:]"), note="dead visitor in practice but sibling agreement")
+B("c09-operator-args-not-traversed", "C09", "R9.4", (CU, "        return list(arg.accept(self) for arg in expr.args)", "        return list(arg.accept(self) for arg in expr.args[:1])"))
+S("c09-benign-ne0", "C09", (MX, "    if incomplete_rows_n > 0:", "    if incomplete_rows_n != 0:"))
+S("c09-benign-tuple-literals", "C09", (MX, '    if na_action not in ["drop", "error", "pass"]:', '    if na_action not in ("drop", "error", "pass"):'))
+
+# ------------------------------------------------------------------ C10
+B("c10-literal-warn", "C10", "R10.2", (VR, '        if config["EVAL_UNSEEN_CATEGORIES"] == "warning":', '        if config["EVAL_UNSEEN_CATEGORIES"] == "warn":'))
+B("c10-setattr-no-validation", "C10", "R10.1", (CF, "            if value in Config.FIELDS[key]:\n                super().__setattr__(key, value)\n            else:\n                raise ValueError(f\"{value} is not a valid value for '{key}'\")", "            super().__setattr__(key, value)"))
+B("c10-unknown-key-accepted", "C10", "R10.1", (CF, "            raise KeyError(f\"'{key}' is not a valid configuration option\")", "            super().__setattr__(key, value)"))
+B("c10-default-silent", "C10", "R10.1", (CF, '("error", "warning", "silent")', '("silent", "warning", "error")'))
+B("c10-package-sets-config", "C10", "R10.1", (CL, "        new_data_levels = set(x)\n        original_levels = set(self.levels)", "        config[\"EVAL_UNSEEN_CATEGORIES\"] = \"silent\"\n        new_data_levels = set(x)\n        original_levels = set(self.levels)"))
+B("c10-zero-mask-differs", "C10", "R10.3", (VR, "        contribution[idxs_original == -1] = 0", "        contribution[idxs_modified == 0] = 0"))
+B("c10-whole-array-zeroed", "C10", "R10.3", (CL, "        contribution[idxs_original == -1] = 0", "        contribution[:] = 0"))
+B("c10-zero-through-matrix", "C10", "R10.3", (VR, "        contribution = self.contrast_matrix.matrix[idxs_modified]", "        contribution = self.contrast_matrix.matrix"))
+B("c10-index-not-copied", "C10", "R10.3", (CL, "        idxs_modified = np.copy(idxs_original)", "        idxs_modified = idxs_original"))
+B("c10-categorical-without-levels", "C10", "R10.3", (VR, "            idxs = pd.Categorical(x, categories=self.levels).codes\n            return self.contrast_matrix.matrix[idxs]", "            idxs = pd.Categorical(x).codes\n            return self.contrast_matrix.matrix[idxs]"))
+B("c10-policy-one-sibling", "C10", "R10.2", (CL, '        if config["EVAL_UNSEEN_CATEGORIES"] == "error":\n            difference = [str(x) for x in difference]\n            raise ValueError(', '        if config["EVAL_UNSEEN_CATEGORIES"] == "error" and len(difference) > 1:\n            difference = [str(x) for x in difference]\n            raise ValueError('),
+  note="compare no longer a plain literal test")
+B("c10-warning-returns-early", "C10", "R10.2", (CL, "                \"Setting all the indicator variables to zero.\"\n            )\n        return contribution\n\n    def eval_new_data_categorical_box", "                \"Setting all the indicator variables to zero.\"\n            )\n            return self.contrast_matrix.matrix[idxs_modified]\n        return contribution\n\n    def eval_new_data_categorical_box"))
+B("c10-sibling-error-only-in-one", "C10", "R10.4", (VR, "        if not difference:\n            idxs = pd.Categorical(x, categories=self.levels).codes\n            return self.contrast_matrix.matrix[idxs]\n", "        if not difference:\n            idxs = pd.Categorical(x, categories=self.levels).codes\n            return self.contrast_matrix.matrix[idxs]\n        self.levels = self.levels\n"),
+  note="extra field write in one sibling: summaries differ (n_stores unchanged, fields same) -> may not fire")
+VARIANTS.pop()
+B("c10-new-column-first", "C10", "R10.5", (TT, "            Ji = np.column_stack([Ji, np.zeros((Ji.shape[0], 1), dtype=\"int\")])\n            Ji[all_zeros, -1] = 1", "            Ji = np.column_stack([np.zeros((Ji.shape[0], 1), dtype=\"int\"), Ji])\n            Ji[all_zeros, 0] = 1"))
+B("c10-new-column-unconditional", "C10", "R10.5", (TT, "        if all_zeros.any():\n            Ji = np.column_stack", "        if True:\n            Ji = np.column_stack"))
+B("c10-mask-axis0", "C10", "R10.5", (TT, "        all_zeros = ~Ji.any(axis=1)", "        all_zeros = ~Ji.any(axis=0)"))
+B("c10-factor-name-not-dedup", "C10", "R10.5", (MX, "            if slice_w_original != slice_w_new and term.factor.name not in factors_with_new_levels:", "            if slice_w_original != slice_w_new:"))
+B("c10-width-of-other-term", "C10", "R10.5", (MX, "            slice_original = self.slices[term.name]", "            slice_original = self.slices[next(iter(self.slices))]"))
+B("c10-reports-term-name", "C10", "R10.5", (MX, "                factors_with_new_levels.append(term.factor.name)", "                factors_with_new_levels.append(term.name)"))
+S("c10-benign-renamed-both", "C10",
+  (VR, "        idxs_original = pd.Categorical(x, categories=self.levels).codes\n        idxs_modified = np.copy(idxs_original)\n        idxs_modified[idxs_original == -1] = 0\n        contribution = self.contrast_matrix.matrix[idxs_modified]\n        contribution[idxs_original == -1] = 0",
+   "        codes = pd.Categorical(x, categories=self.levels).codes\n        patched = np.copy(codes)\n        patched[codes == -1] = 0\n        contribution = self.contrast_matrix.matrix[patched]\n        contribution[codes == -1] = 0"))
+S("c10-benign-message", "C10", (CF, '"\'{key}\' is not a valid configuration option"', '"\'{key}\' is not a configuration option"'))
